@@ -56,10 +56,17 @@ func NewIntFromString(typ *types.IntType, s string) (*Int, error) {
 		if !typ.Equal(types.I1) {
 			return nil, errors.Errorf("invalid boolean type; expected i1, got %T", typ)
 		}
+		if typ != types.I1 {
+			// Keep the given type; e.g. a named i1 type (`%bool = type i1`).
+			return &Int{Typ: typ, X: big.NewInt(1)}, nil
+		}
 		return True, nil
 	case "false":
 		if !typ.Equal(types.I1) {
 			return nil, errors.Errorf("invalid boolean type; expected i1, got %T", typ)
+		}
+		if typ != types.I1 {
+			return &Int{Typ: typ, X: big.NewInt(0)}, nil
 		}
 		return False, nil
 	}
